@@ -105,6 +105,7 @@ example : ∃ fr, filterTables .position { cfg := { measure := .editDistance, th
       edA edT edToks 4 = .ok fr ∧ ∃ row ∈ fr.rows, rowKeys row = (Cell.int 1, Cell.int 7) := by
   obtain ⟨fr, hfr⟩ := tables_returns_frame .position
     { cfg := { measure := .editDistance, threshold := .int 1, qval := .int 2 } } edA edT edToks 4 edL edR ed_valid ed_keys
+    (by decide +kernel)
   refine ⟨fr, hfr, ?_⟩
   exact tables_safe_position_ed _ 1 2 true edA edT edToks 4 edL edR fr ed_valid ed_keys (by decide) (fun _ => rfl) rfl hfr
     [.int 1, .str "aab"] [.int 7, .str "aaab"] (by decide) (by decide) (by unfold Present; decide)
